@@ -1,6 +1,7 @@
 SPECIFICATION TraceSpec
 CONSTANTS
     Stores <- StoresDef
+    LocalStores <- LocalDef
     AlgOf <- AlgDef
     Contents <- ContentsDef
     Dig <- DigDef
